@@ -118,8 +118,10 @@ R.contract(
     locals={"last_err": "OptOSError", "delay": "float"},
     loops={0: {"inv": [
         # retry loop: while retrying nothing has changed -- final = old, temp = new content, still to be installed
-        "seq_eq(fs, old(fs))",
-        "seq_eq(fs_tmps, old(fs_tmps)) and seq_eq(fs_ntfclose, old(fs_ntfclose)) and seq_eq(fs_stuck, old(fs_stuck))",
+        # (pre_loop = state at loop entry = state at function entry: only mkdir ran before, which changes no file;
+        #  written with pre_loop so that the invariant is also usable where atomic_replace is interpreted inline)
+        "seq_eq(fs, pre_loop(fs))",
+        "seq_eq(fs_tmps, pre_loop(fs_tmps)) and seq_eq(fs_ntfclose, pre_loop(fs_ntfclose)) and seq_eq(fs_stuck, pre_loop(fs_stuck))",
         "delay >= 0",
         "present(last_err) == (_i > 0)",
         "implies(_i > 0, 'os.replace' in fs_called)",
@@ -156,6 +158,8 @@ W_ENSURES_EXC = [
     ("temp-left-only-if-cleanup-io-or-its-handle-close-failed",
      "forall((p, 'str'), p in fs_tmps and p in fs, p in fs_stuck or p in fs_ntfclose)"),
 ]
+# `fs[final] = new` only if the temp held *all* of `data` before it is installed (this is where a short write bites)
+W_READY = {AT + "atomic_replace": [("temp-holds-complete-data", "file_is(fs, fs_key(tmp), data)")]}
 W_LEAK = [
     # FINDING (kept, not exported): _make_tmp() runs outside the try block; if close() of the NamedTemporaryFile handle
     # raises, the temp file is left behind
@@ -168,9 +172,109 @@ for shape in ("Path", "str"):
         name="atomic_write_bytes" if shape == "Path" else "atomic_write_bytes[final_path:str]",
         types={"final_path": shape, "data": "str"},
         ghost=GHOST,
-        fs_inv=W_INV, fs_policy=W_POLICY,
+        fs_inv=W_INV, fs_policy=W_POLICY, call_pre=W_READY,
         ensures=W_ENSURES,
         ensures_exc=W_ENSURES_EXC + (W_LEAK if shape == "Path" else []),
         raises=["OSError"],
         modifies=list(fsmodel.GHOST_NAMES),
     )
+
+# fault alphabet widened: raw write may be short (ENOSPC / >2 GiB).  The code ignores the count returned by f.write():
+# FINDING -- the truncated temp is installed: the caller-side obligation "the temp holds the complete data before
+# atomic_replace is called" fails (reproduced natively with a short-writing handle: final == b"NEW" for b"NEWDATA")
+R.contract(
+    AT + "atomic_write_bytes", "C08", name="atomic_write_bytes[short-write]", callee=False,
+    types={"final_path": "Path", "data": "str"}, ghost=GHOST, fs_opts={"short_write": True},
+    call_pre=W_READY,
+    fs_inv=[W_INV[0]],
+    raises=["OSError"],
+)
+
+# fault alphabet widened: KeyboardInterrupt delivered before / after any primitive.  The file-system invariants still
+# hold (they are state invariants); FINDING -- `except Exception` does not catch it, the temp file stays behind.
+KI_EXC = [("final-old-or-new", W_INV[0][1]),
+          ("others-untouched", W_INV[1][1]),
+          ("temp-left-only-if-cleanup-io-or-its-handle-close-failed", W_ENSURES_EXC[3][1])]
+R.contract(
+    AT + "atomic_replace", "C08", name="atomic_replace[KeyboardInterrupt]", callee=False,
+    types={"tmp_path": "Path", "final_path": "Path", "retries": "int", "backoff_ms": "int"},
+    ghost=GHOST, fs_opts={"interrupt": True},
+    requires=[("tmp-not-final", "tmp_path != final_path"), ("backoff-nonneg", "backoff_ms >= 0")],
+    fs_inv=REPLACE_INV, fs_policy=REPLACE_POLICY,
+    raises=["OSError", "KeyboardInterrupt"],
+)
+R.contract(
+    AT + "atomic_write_bytes", "C08", name="atomic_write_bytes[KeyboardInterrupt]", callee=False,
+    types={"final_path": "Path", "data": "str"}, ghost=GHOST, fs_opts={"interrupt": True},
+    fs_inv=W_INV, fs_policy=W_POLICY,
+    ensures=W_ENSURES, ensures_exc=KI_EXC,
+    raises=["OSError", "KeyboardInterrupt"],
+)
+
+# ------------------------------------------------------------------------------------------------ _fsync_best_effort
+
+R.contract(
+    AT + "_fsync_best_effort", "C08", callee=False,
+    types={"path": "Path"}, ghost=GHOST,
+    fs_inv=[("files-untouched", "seq_eq(fs, old(fs))")],
+    ensures=[("files-untouched", "seq_eq(fs, old(fs))")],
+    raises="none",          # directory fsync is optional: every OSError is swallowed
+)
+
+# ------------------------------------------------------------------------------------------------ atomic_write_text
+
+TXT = ("ite(old(newline) != '\\n', old(text).replace('\\r\\n', '\\n').replace('\\n', old(newline)), "
+       "old(text).replace('\\r\\n', '\\n')).encode(old(encoding))")
+
+
+def _with_data(clauses, data):
+    return [(c[0], c[1].replace("data", "(" + data + ")")) + tuple(c[2:]) for c in clauses]
+
+
+NOT_UTF8 = "not (encoding == 'utf-8' or encoding == 'utf8')"
+R.contract(
+    AT + "atomic_write_text", "C08",
+    types={"final_path": "Path", "text": "str", "encoding": "str", "newline": "str"},
+    ghost=GHOST,
+    fs_inv=_with_data(W_INV, TXT), fs_policy=W_POLICY,
+    ensures=_with_data(W_ENSURES, TXT),
+    ensures_exc=W_ENSURES_EXC,
+    # encoding errors happen before the first I/O call
+    raises={"OSError": None, "UnicodeError": None, "LookupError": NOT_UTF8},
+    modifies=list(fsmodel.GHOST_NAMES),
+)
+
+# ------------------------------------------------------------------------------------------------ atomic_write_json
+
+R.untype("JsonVal")
+JSON = ("json.dumps(obj, sort_keys=sort_keys, separators=separators, ensure_ascii=ensure_ascii)"
+        ".replace('\\r\\n', '\\n')")
+R.contract(
+    AT + "atomic_write_json", "C08",
+    types={"final_path": "Path", "obj": "Un[JsonVal]", "sort_keys": "bool", "separators": "Tuple[str, str]",
+           "ensure_ascii": "bool"},
+    ghost=GHOST,
+    fs_inv=_with_data(W_INV, JSON), fs_policy=W_POLICY,
+    ensures=_with_data(W_ENSURES, JSON),
+    ensures_exc=W_ENSURES_EXC,
+    raises=["OSError", "TypeError", "ValueError"],      # json.dumps: unserialisable / circular; UnicodeError < ValueError
+    modifies=list(fsmodel.GHOST_NAMES),
+)
+
+# ------------------------------------------------------------------------------------------------ temp names are invisible
+
+
+def _tmpname_lemma():
+    """a temp name  <final name> + "." + 8 chars of [a-z0-9_]  is never picked up by snapshot discovery
+    (`name.endswith(".json")`), by the log readers (`*.jsonl`) or by the zstd sniffing, and differs from the final name"""
+    name, r = z3.Strings("final_name tmp_rand")
+    hyp = [z3.InRe(r, z3.Loop(fsmodel.TMP_CHARS, 8, 8))]
+    t = z3.Concat(name, z3.StringVal("."), r)
+    goals = [("never-endswith-" + suf, hyp, z3.Not(z3.SuffixOf(z3.StringVal(suf), t))) for suf in (".json", ".jsonl", ".zst")]
+    goals.append(("differs-from-final-name", hyp, t != name))
+    goals.append(("is-a-single-path-component", hyp + [z3.Not(z3.Contains(name, z3.StringVal("/")))],
+                  z3.Not(z3.Contains(t, z3.StringVal("/")))))
+    return goals
+
+
+R.lemma("temp_name_invisible", "C08", _tmpname_lemma)
